@@ -38,7 +38,7 @@ fn statements() -> Vec<String> {
             // a never-bound name reads as None even if a function of that name is registered
             "x = mul", "sum += 1", "y = max",
             // numerically equal, differently written: the binding holds what was written last
-            "x = 2.5", "x += 0.00", "x *= 1.0", "x = 0", "x = - 0", "x = [1.0, 'b']",
+            "x = 7", "x = 2.5", "x += 0.00", "x *= 1.0", "x = 0", "x = - 0", "x = [1.0, 'b']",
         ]
         .iter()
         .map(|s| s.to_string()),
